@@ -1,3 +1,6 @@
+mod f_hijri;
+mod f_range;
+mod falsify;
 mod gen;
 mod rng;
 mod units;
@@ -22,6 +25,14 @@ fn main() {
                 std::process::exit(2);
             }
             o.w.flush().unwrap();
+        }
+        "falsify" => {
+            // falsify <pid> <tier|replay> <seed> <corpus|->   (extra inputs on stdin)
+            let seed: u64 = args[4].parse().unwrap();
+            if !falsify::run(&args[2], &args[3], seed, args.get(5).map(|s| s.as_str()).unwrap_or("-")) {
+                eprintln!("no falsifier for {}", args[2]);
+                std::process::exit(2);
+            }
         }
         _ => {
             eprintln!("usage: ipt_harness corr <unit> <tier> <seed>");
